@@ -1,9 +1,114 @@
 package pfcpiface
 
-import "github.com/omec-project/upf-epc/pfcpiface/metrics"
+import (
+	"reflect"
+	"sync"
+	"unsafe"
+
+	"github.com/omec-project/upf-epc/pfcpiface/metrics"
+)
 
 // White-box observations for the verification harness (copied into the
-// scratch build only; never part of /repo).
+// scratch build only; never part of /repo). Everything that looks inside a
+// structure goes through reflection by field NAME: a change to /repo that
+// renames or retypes an internal field must not break the build of the
+// simulator - the probe then answers "unknown" (-1 / nil) and the oracle that
+// uses it skips its white-box half. Probes run at quiescence, on the simulator
+// side; they take no locks.
+
+// verifField returns the (addressable, readable) field name of the struct that
+// obj points to, or an invalid Value.
+func verifField(obj interface{}, name string) reflect.Value {
+	v := reflect.ValueOf(obj)
+	for v.IsValid() && (v.Kind() == reflect.Ptr || v.Kind() == reflect.Interface) {
+		if v.IsNil() {
+			return reflect.Value{}
+		}
+		v = v.Elem()
+	}
+	if !v.IsValid() || v.Kind() != reflect.Struct {
+		return reflect.Value{}
+	}
+	f := v.FieldByName(name)
+	if !f.IsValid() {
+		return f
+	}
+	if f.CanAddr() {
+		f = reflect.NewAt(f.Type(), unsafe.Pointer(f.UnsafeAddr())).Elem() // lift the unexported-field restriction
+	}
+	return f
+}
+
+// verifLen: number of elements of a map / slice / sync.Map / golang-set field; -1 when unknown.
+func verifLen(obj interface{}, name string) int {
+	f := verifField(obj, name)
+	if !f.IsValid() {
+		return -1
+	}
+	return verifLenOf(f)
+}
+
+func verifLenOf(f reflect.Value) int {
+	for f.Kind() == reflect.Ptr || f.Kind() == reflect.Interface {
+		if f.IsNil() {
+			return -1
+		}
+		if m := f.MethodByName("Cardinality"); m.IsValid() { // golang-set
+			return int(m.Call(nil)[0].Int())
+		}
+		f = f.Elem()
+	}
+	switch f.Kind() {
+	case reflect.Map, reflect.Slice, reflect.Array, reflect.Chan:
+		return f.Len()
+	case reflect.Struct:
+		if f.CanAddr() {
+			if sm, ok := f.Addr().Interface().(*sync.Map); ok {
+				n := 0
+				sm.Range(func(_, _ interface{}) bool { n++; return true })
+				return n
+			}
+			if m := f.Addr().MethodByName("Cardinality"); m.IsValid() {
+				return int(m.Call(nil)[0].Int())
+			}
+		}
+	}
+	return -1
+}
+
+// verifUints lists the elements of a slice / golang-set field of unsigned integers; nil when unknown.
+func verifUints(f reflect.Value) []uint64 {
+	if !f.IsValid() {
+		return nil
+	}
+	for f.Kind() == reflect.Ptr || f.Kind() == reflect.Interface {
+		if f.IsNil() {
+			return nil
+		}
+		if m := f.MethodByName("ToSlice"); m.IsValid() {
+			f = m.Call(nil)[0]
+			break
+		}
+		f = f.Elem()
+	}
+	if f.Kind() != reflect.Slice && f.Kind() != reflect.Array {
+		return nil
+	}
+	out := []uint64{}
+	for i := 0; i < f.Len(); i++ {
+		e := f.Index(i)
+		for e.Kind() == reflect.Interface {
+			e = e.Elem()
+		}
+		switch e.Kind() {
+		case reflect.Uint8, reflect.Uint16, reflect.Uint32, reflect.Uint64, reflect.Uint:
+			out = append(out, e.Uint())
+		case reflect.Int, reflect.Int32, reflect.Int64:
+			out = append(out, uint64(e.Int()))
+		}
+	}
+	return out
+}
 
 // VerifResetGlobals resets package-level state that a process restart resets.
 func VerifResetGlobals() {
@@ -16,40 +121,51 @@ func (p *PFCPIface) VerifTEIDAllocated(id uint32) bool {
 }
 
 // VerifSetTEIDCursor places the allocation cursor so that the next allocated
-// TEID is next (wrap-around tests).
-func (p *PFCPIface) VerifSetTEIDCursor(next uint32) {
-	g := p.upf.fteidGenerator
-	g.lock.Lock()
-	g.offset = next - minValue
-	g.lock.Unlock()
+// TEID is next (wrap-around tests). Returns false when the generator has no
+// cursor field this probe understands.
+func (p *PFCPIface) VerifSetTEIDCursor(next uint32) bool {
+	f := verifField(p.upf.fteidGenerator, "offset")
+	if !f.IsValid() {
+		return false
+	}
+	want := uint64(next - minValue)
+	switch f.Kind() {
+	case reflect.Uint32, reflect.Uint64, reflect.Uint:
+		f.SetUint(want)
+		return true
+	case reflect.Struct: // sync/atomic.Uint32 and friends
+		if m := f.Addr().MethodByName("Store"); m.IsValid() && m.Type().NumIn() == 1 {
+			arg := reflect.New(m.Type().In(0)).Elem()
+			switch arg.Kind() {
+			case reflect.Uint32, reflect.Uint64:
+				arg.SetUint(want)
+				m.Call([]reflect.Value{arg})
+				return true
+			}
+		}
+	}
+	return false
 }
 
-// VerifPoolFree returns the number of free UE addresses, -1 without pool.
+// VerifPoolFree returns the number of free UE addresses, -1 without pool / unknown.
 func (p *PFCPIface) VerifPoolFree() int {
 	if p.upf.ippool == nil {
 		return -1
 	}
-	p.upf.ippool.mu.Lock()
-	defer p.upf.ippool.mu.Unlock()
-	return len(p.upf.ippool.freePool)
+	return verifLen(p.upf.ippool, "freePool")
 }
 
-// VerifPoolHeld returns the number of sessions holding an address.
+// VerifPoolHeld returns the number of sessions holding an address, -1 without pool / unknown.
 func (p *PFCPIface) VerifPoolHeld() int {
 	if p.upf.ippool == nil {
 		return -1
 	}
-	p.upf.ippool.mu.Lock()
-	defer p.upf.ippool.mu.Unlock()
-	return len(p.upf.ippool.inventory)
+	return verifLen(p.upf.ippool, "inventory")
 }
 
-// VerifTEIDsUsed returns the number of TEIDs marked used.
+// VerifTEIDsUsed returns the number of TEIDs marked used, -1 when unknown.
 func (p *PFCPIface) VerifTEIDsUsed() int {
-	g := p.upf.fteidGenerator
-	g.lock.Lock()
-	defer g.lock.Unlock()
-	return len(g.usedMap)
+	return verifLen(p.upf.fteidGenerator, "usedMap")
 }
 
 // VerifSessionsGauge returns the summed pfcp_sessions gauge (-1 before init).
@@ -84,34 +200,25 @@ func (p *PFCPIface) VerifAssociations() int {
 }
 
 // VerifUP4Occupancy returns the sizes of the UP4 plug-in's bookkeeping maps and
-// free-id pools (nil on another datapath). Read at quiescence only.
+// free-id pools (nil on another datapath; -1 for what this probe cannot read).
 func (p *PFCPIface) VerifUP4Occupancy() map[string]int {
 	u, ok := p.upf.datapath.(*UP4)
 	if !ok {
 		return nil
 	}
-	out := map[string]int{
-		"tunnelPeerIDs":        len(u.tunnelPeerIDs),
-		"tunnelPeerIDsPool":    len(u.tunnelPeerIDsPool),
-		"applicationIDs":       len(u.applicationIDs),
-		"applicationIDsPool":   len(u.applicationIDsPool),
-		"meters":               len(u.meters),
-		"ueAddrToFSEID":        len(u.ueAddrToFSEID),
-		"fseidToUEAddr":        len(u.fseidToUEAddr),
-		"appMeterCellIDsPool":  -1,
-		"sessMeterCellIDsPool": -1,
-		"counterIDsPools":      0,
+	out := map[string]int{}
+	for _, k := range []string{"tunnelPeerIDs", "tunnelPeerIDsPool", "applicationIDs", "applicationIDsPool", "meters", "ueAddrToFSEID", "fseidToUEAddr", "appMeterCellIDsPool", "sessMeterCellIDsPool"} {
+		out[k] = verifLen(u, k)
 	}
-	if u.appMeterCellIDsPool != nil {
-		out["appMeterCellIDsPool"] = u.appMeterCellIDsPool.Cardinality()
-	}
-	if u.sessMeterCellIDsPool != nil {
-		out["sessMeterCellIDsPool"] = u.sessMeterCellIDsPool.Cardinality()
-	}
-	for _, c := range u.counters {
-		if c.counterIDsPool != nil {
-			out["counterIDsPools"] += c.counterIDsPool.Cardinality()
+	out["counterIDsPools"] = 0
+	if cs := verifField(u, "counters"); cs.IsValid() && cs.Kind() == reflect.Slice {
+		for i := 0; i < cs.Len(); i++ {
+			if n := verifLen(cs.Index(i).Addr().Interface(), "counterIDsPool"); n > 0 {
+				out["counterIDsPools"] += n
+			}
 		}
+	} else {
+		out["counterIDsPools"] = -1
 	}
 	return out
 }
@@ -125,65 +232,33 @@ func (p *PFCPIface) VerifUP4ShrinkIDPools(keep int) bool {
 	if !ok {
 		return false
 	}
-	u.tunnelPeerMu.Lock()
-	if len(u.tunnelPeerIDsPool) > keep {
-		u.tunnelPeerIDsPool = u.tunnelPeerIDsPool[:keep:keep]
+	done := false
+	for _, k := range []string{"tunnelPeerIDsPool", "applicationIDsPool"} {
+		f := verifField(u, k)
+		if f.IsValid() && f.Kind() == reflect.Slice && f.Len() > keep {
+			f.Set(f.Slice3(0, keep, keep))
+			done = true
+		}
 	}
-	u.tunnelPeerMu.Unlock()
-	u.applicationMu.Lock()
-	if len(u.applicationIDsPool) > keep {
-		u.applicationIDsPool = u.applicationIDsPool[:keep:keep]
-	}
-	u.applicationMu.Unlock()
-	return true
+	return done
 }
 
 // VerifUP4FreeIDs returns the ids currently in the free pools of the UP4
-// plug-in, per id space. Read at quiescence only.
+// plug-in, per id space (a space this probe cannot read is absent).
 func (p *PFCPIface) VerifUP4FreeIDs() map[string][]uint64 {
 	u, ok := p.upf.datapath.(*UP4)
 	if !ok {
 		return nil
 	}
 	out := map[string][]uint64{}
-	for _, id := range u.tunnelPeerIDsPool {
-		out["tunnel-peer"] = append(out["tunnel-peer"], uint64(id))
-	}
-	for _, id := range u.applicationIDsPool {
-		out["application"] = append(out["application"], uint64(id))
-	}
-	conv := func(v interface{}) (uint64, bool) {
-		switch x := v.(type) {
-		case uint64:
-			return x, true
-		case uint32:
-			return uint64(x), true
-		case int:
-			return uint64(x), true
-		case uint8:
-			return uint64(x), true
-		}
-		return 0, false
-	}
-	if u.appMeterCellIDsPool != nil {
-		for _, v := range u.appMeterCellIDsPool.ToSlice() {
-			if id, ok := conv(v); ok {
-				out["app-meter-cell"] = append(out["app-meter-cell"], id)
-			}
+	for space, field := range map[string]string{"tunnel-peer": "tunnelPeerIDsPool", "application": "applicationIDsPool", "app-meter-cell": "appMeterCellIDsPool", "session-meter-cell": "sessMeterCellIDsPool"} {
+		if ids := verifUints(verifField(u, field)); ids != nil {
+			out[space] = ids
 		}
 	}
-	if u.sessMeterCellIDsPool != nil {
-		for _, v := range u.sessMeterCellIDsPool.ToSlice() {
-			if id, ok := conv(v); ok {
-				out["session-meter-cell"] = append(out["session-meter-cell"], id)
-			}
-		}
-	}
-	if len(u.counters) > 0 && u.counters[0].counterIDsPool != nil {
-		for _, v := range u.counters[0].counterIDsPool.ToSlice() {
-			if id, ok := conv(v); ok {
-				out["counter-cell"] = append(out["counter-cell"], id)
-			}
+	if cs := verifField(u, "counters"); cs.IsValid() && cs.Kind() == reflect.Slice && cs.Len() > 0 {
+		if ids := verifUints(verifField(cs.Index(0).Addr().Interface(), "counterIDsPool")); ids != nil {
+			out["counter-cell"] = ids
 		}
 	}
 	return out
